@@ -4,8 +4,11 @@ package main
 
 import (
 	"fmt"
+	"go/ast"
+	"go/constant"
 	"go/token"
 	"go/types"
+	"sort"
 	"strings"
 
 	"golang.org/x/tools/go/ssa"
@@ -255,6 +258,69 @@ func checkC17(c *Ctx) {
 		okH = found
 	}
 	c.Check(okH, B1, FuncName(hsRead), "handshake length prefix", m.Pos(hsRead.Pos()), "2-byte length, same byte order on both sides", "handshake length prefix disagrees between Write and Read")
+
+	// ------------------------------------------------------------------ T1: topic table vs. what the orchestrator sends
+	const T1 = "C17.T1"
+	c.Rule(T1, "every message type the orchestrator sends with a topic is framed with a topic by the reader", 2)
+	if np := m.Pkg(PkgNet); np != nil {
+		table := map[int64]bool{}
+		okTab := false
+		for _, f := range np.Syntax {
+			for _, d := range f.Decls {
+				gd, isG := d.(*ast.GenDecl)
+				if !isG || gd.Tok != token.VAR {
+					continue
+				}
+				for _, sp := range gd.Specs {
+					vs := sp.(*ast.ValueSpec)
+					for i, n := range vs.Names {
+						if n.Name != "shouldHaveTopic" || i >= len(vs.Values) {
+							continue
+						}
+						if cl, isCL := vs.Values[i].(*ast.CompositeLit); isCL {
+							okTab = true
+							for _, e := range cl.Elts {
+								kv, isKV := e.(*ast.KeyValueExpr)
+								if !isKV {
+									okTab = false
+									continue
+								}
+								kt, vt := np.TypesInfo.Types[kv.Key], np.TypesInfo.Types[kv.Value]
+								if kt.Value == nil || vt.Value == nil {
+									okTab = false
+									continue
+								}
+								k, _ := constant.Int64Val(kt.Value)
+								table[k] = constant.BoolVal(vt.Value)
+							}
+						}
+					}
+				}
+			}
+		}
+		if !okTab {
+			c.Unk(T1, "net", "shouldHaveTopic", "-", "the table is not a map literal with constant entries")
+		} else if t := buildThresholdModel(c); t != nil {
+			sent := map[int64]bool{}
+			for _, ci := range callsOfFuncField(t.fns, t.fSend) {
+				if k, ok := constInt(ci.Common().Args[0]); ok {
+					sent[k] = true
+				}
+			}
+			var ks []int64
+			for k := range sent {
+				ks = append(ks, k)
+			}
+			sort.Slice(ks, func(i, j int) bool { return ks[i] < ks[j] })
+			if len(ks) == 0 {
+				c.Bad(T1, "threshold", "message types sent", "-", "no constant message type found at the orchestrator's send sites")
+			}
+			for _, k := range ks {
+				c.Check(table[k], T1, "net", fmt.Sprintf("type %d carries a topic", k), "-", "shouldHaveTopic[type] is true",
+					fmt.Sprintf("the orchestrator sends type %d with a 32-byte topic but the reader does not read a topic for it: every such frame is mis-parsed (topic bytes taken as payload) and the stream loses synchronisation", k))
+			}
+		}
+	}
 
 	// ------------------------------------------------------------------ G1
 	if lenVal != nil {
